@@ -22,7 +22,9 @@ for pid in sorted(registry.PROPS):
 			design_ref=P["design_ref"],
 		),
 		level_note=P["level_note"],
-		technique="bounded model checking of the compiled crate (Kani 0.68 -> CBMC 6.11 -> cadical SAT): symbolic inputs, assertions against a reference, counter-examples replayed natively",
+		technique=("bounded model checking of the compiled crate (Kani 0.68 -> CBMC 6.11 -> cadical SAT): symbolic inputs, assertions against a reference, counter-examples replayed natively"
+		           + ("; plus symbolic execution of the MIR of the driver loop (src/parse/value.rs, compiler dump of the current tree) with z3 deciding every branch on a symbolic character, "
+		              "against a reference pushdown recogniser, for every document up to the length bound; counter-example documents replayed on the real parser" if any(h["crate"] == "mir" for h in P["harnesses"]) else "")),
 	))
 m = dict(
 	version=1,
@@ -34,7 +36,9 @@ m = dict(
 		source_commits=registry.HOOK_COMMITS,
 		add_only=True,
 	),
-	engines=[dict(name="kani-cbmc", path="/verif/check", serves_properties=sorted(registry.PROPS),
+	engines=[dict(name="mir-z3", path="/verif/drv/drvcheck.py", serves_properties=[p for p in sorted(registry.PROPS) if any(h["crate"] == "mir" for h in registry.PROPS[p]["harnesses"])],
+	              kind_free_text="symbolic executor for rustc MIR text (drv/mirx.py) with contract models of the callees and a document-level reference (drv/driver.py); z3 4.x Python API from the tooling venv (python3-vt); invoked by ./check"),
+	         dict(name="kani-cbmc", path="/verif/check", serves_properties=sorted(registry.PROPS),
 	              kind_free_text="Kani 0.68.0 proof harnesses (external crate /verif/kani with a path dependency on /repo; in-crate harness modules /verif/incrate/*.rs included under cfg(json_syntax_verif)), CBMC 6.11.0 bounded model checker, cadical SAT back end")],
 	checks=checks,
 	notes=registry.NOTES,
